@@ -13,6 +13,15 @@ def P(src, variant, name, args=None, tiers=('quick', 'thorough'), tier_args=None
 
 
 CHECKS = {
+    'C04': {
+        'engine': 'langx',
+        'rule': 'flat operator sequences vs exact-arithmetic reference (set-valued where the document is silent)',
+        'parts': [
+            P('props/C04.cpp', 'asan', 'expr-asan', tier_args={'quick': ['--ops', '2'], 'thorough': ['--ops', '3']}),
+            P('props/C04.cpp', 'fast', 'expr-fast', tier_args={'quick': ['--ops', '3'], 'thorough': ['--ops', '4']}),
+        ],
+        'floor': {'quick': 20, 'thorough': 20},
+    },
     'C01': {
         'engine': 'langx',
         'rule': 'bounded-exhaustive template texts in exact-size buffers',
